@@ -20,6 +20,7 @@ Inductive err :=
 | EGraphVertex     (* Error::GraphVertexNotFound *)
 | EGraphEdge       (* Error::GraphEdgeNotFound *)
 | ECustom          (* Error::Custom(_) and every other string-carrying error *)
+| EInvalidAddress  (* Error::ExecutorInvalidAddress *)
 | EOther.
 
 Definition err_eqb (a b : err) : bool :=
@@ -28,7 +29,7 @@ Definition err_eqb (a b : err) : bool :=
   | EUnmapped, EUnmapped | ENoLocation, ENoLocation | ENoEdgeCond, ENoEdgeCond
   | EIntrinsic, EIntrinsic | EMaxSteps, EMaxSteps | EOrdering, EOrdering
   | ENoEntry, ENoEntry | ENoExit, ENoExit | EGraphVertex, EGraphVertex
-  | EGraphEdge, EGraphEdge | ECustom, ECustom | EOther, EOther => true
+  | EGraphEdge, EGraphEdge | ECustom, ECustom | EInvalidAddress, EInvalidAddress | EOther, EOther => true
   | _, _ => false
   end.
 
